@@ -145,3 +145,25 @@ PROPS["C08"] = {
     "assumptions": ["safe-state maps are well-typed for their address size"],
     "design_ref": "DESIGN.md section 3, C08",
 }
+
+PROPS["C06"] = {
+    "engine": "c06",
+    "level": "exploration",
+    "technique": "differential runtime monitor vs. a 60-line IEC task-model over generated task configurations and timelines, observed through runtime events, body-written sequence counters and overrun counters",
+    "quick": {"shards": 8, "budget_s": 15},
+    "thorough": {"shards": 16, "budget_s": 240},
+    "floor": {"quick": 1000, "thorough": 20000},
+    "require_counters": {"quick": {"cycles_compared": 50000, "cycles_with_two_or_more_due_tasks": 5000, "overrun_events_compared": 5000},
+                         "thorough": {"cycles_compared": 2000000}},
+    "rule": "case = configuration (1-6 tasks: INTERVAL in {0,1,3,4,10 ms} incl. equal pairs, or SINGLE on one of 1-2 shared BOOL globals incl. initially TRUE, "
+            "PRIORITY 0-2 with duplicates; 1-6 program instances attached to tasks or left as background; 0-2 FB instances associated with a task through "
+            "register_task) x timeline of 20-80 cycles with dt in {0,1ns,1ms,I-1,I,I+1,2.5I,7I,...}, SINGLE edges written externally and by program bodies. "
+            "distinct = (task-set shape, timeline length class, overrun class); non-trivial = >=2 tasks due in one cycle at least once, or an overrun occurred",
+    "level_text": "Every cycle's executed unit sequence (programs and task-associated FBs, reconstructed from a global sequence counter the bodies write), "
+                  "TaskStart/TaskEnd/TaskOverrun events and task_overrun_count are compared with a model written from the property statement: due set, "
+                  "priority / due-time / declaration-order tie-breaks, at most once per cycle, background programs last, missed activations counted not replayed.",
+    "level_note": "Tasks have either INTERVAL>0 or SINGLE, never both (the statement leaves 'last activation' open for the combination). SINGLE is sampled once per "
+                  "cycle after the input latch in model and code.",
+    "assumptions": ["runtime clock starts at 0 and task timers start at registration time"],
+    "design_ref": "DESIGN.md section 3, C06",
+}
